@@ -82,18 +82,43 @@ def gen_case(rng, op, w, n):
     return [gen_value(rng, w, n)]
 
 
+def gen_iilog(rng, w, n):
+    """iilog(m, b, k) as its callers use it: b = beta^m >= 2, k >= 1, b * k representable"""
+    bits = w * n
+    M = 1 << bits
+    beta = rng.choice([2, 3, 10, 16, 255, rng.bits(rng.below(min(bits // 2, 40)) + 2) or 2])
+    if beta < 2:
+        beta = 2
+    m = rng.choice([1, 1, 2, 4])
+    b = beta ** m
+    if b * b >= M:
+        b, m = beta, 1
+    if b >= M:
+        b, m = 2, 1
+    kmax = max(1, (M - 1) // b)
+    k = rng.choice([1, b - 1, b, b + 1, b * b % kmax or 1, rng.below(kmax) + 1, kmax]) % (kmax + 1) or 1
+    return [m, b, k]
+
+
 def gen(rng, tier):
     thorough = tier == "thorough"
     configs = CONFIGS_ALL if thorough else CONFIGS_QUICK
     per = 300 if thorough else 40
     out = []
     for op, sig in OPS.items():
+        if op == "U.int.iilog":
+            for (w, n) in configs:
+                for _ in range(per if w * n <= 1100 else 2):
+                    out.append(fmt_line(op, w, n, gen_iilog(rng, w, n), sig))
+            continue
         for (w, n) in configs:
             k = per if w * n <= 1100 else max(2, per // 50)
             for _ in range(k):
                 out.append(fmt_line(op, w, n, gen_case(rng, op, w, n), sig))
     if thorough:
         for op, sig in OPS.items():
+            if op == "U.int.iilog":
+                continue
             if sig == "LZ":
                 for a in range(256):
                     for e in list(range(0, 20)) + [255, 256, 257, (1 << 32) - 1]:
@@ -124,6 +149,8 @@ def nontrivial(case, result):
         return True
     toks = case.split(" ")
     w = int(toks[1])
+    if toks[0] == "U.int.iilog":
+        return True
     if "pow" in toks[0]:
         a = from_digits(parse_L(toks[3]), w)
         return int(toks[4][2:], 16) >= 2 and a >= 2
